@@ -110,6 +110,19 @@ def inline(crate, body, pick, max_depth=8, _closure_round=0):
         frame = blocks[bi].get('frame', ()) + ((callee.path, bi),)
         unwind_to = t['unwind']
         new = [_shift_block(b, loff, boff, unwind_to, frame) for b in cj['blocks']]
+        # a default method of a local trait, called for a known Self: remember Self for the trait calls inside it
+        if cj.get('impl_self') is None and callee.def_kind == 'AssocFn':
+            self_ty = None
+            cf0 = t.get('callee_full', '')
+            if cf0.startswith('<Self as ') and t.get('self_ty'):
+                self_ty = t['self_ty']
+            elif cf0.startswith('<') and t.get('callee_args'):
+                self_ty = t['callee_args'][0]
+            if self_ty and self_ty != 'Self':
+                for nb_ in new:
+                    tt_ = nb_['term']
+                    if tt_['k'] == 'call' and tt_.get('callee_full', '').startswith('<Self as '):
+                        tt_['self_ty'] = self_ty
         # rewrite returns / resumes
         for nb in new:
             tk = nb['term']['k']
@@ -199,6 +212,20 @@ def local_picker(crate, only=None, never=None):
     """pick(): inline every call that statically resolves to a body of this crate (optionally filtered)."""
     def pick(t, depth, stack):
         r = t.get('resolved')
+        if (not r) and t.get('self_ty') and t.get('callee_full', '').startswith('<Self as '):
+            # `<Self as Trait>::m` inside an inlined default method, Self known from the call site
+            from .facts import strip_generics, type_head
+            cf = strip_generics(t['callee_full'])
+            trait, _, name = cf[len('<Self as '):].partition('>::')
+            hits = [b for b in crate.all_bodies if b.name == name and b.impl_trait == trait and b.impl_self and
+                    type_head(b.impl_self) == type_head(t['self_ty'])]
+            if not hits:
+                hits = [b for b in crate.all_bodies if b.impl_self is None and strip_generics(b.path) == trait + '::' + name]
+            if len(hits) == 1:
+                b = hits[0]
+                if (only is None or only(b)) and (never is None or not never(b)):
+                    return b
+            return None
         if not r or not t.get('resolved_local'):
             return None
         if t.get('resolved_kind') != 'item':
